@@ -730,7 +730,24 @@ def run_compare_e2e(tmp, locale, entries):
         pp = parser.getParser("foo.properties")
         pp.readUnicode(txt)
         ents.append([e for e in pp.walk() if isinstance(e, parser.Entity)])
-    return reports, dict(obs.summary[locale]), ents
+    # the linter on the reference file (it has the plural comments), the other file as its reference
+    from compare_locales.lint.linter import L10nLinter
+    lint = [[r["lineno"], r["column"], int(r["level"] == "error"), lint_message(r["message"])]
+            for r in L10nLinter().lint_file(refpath, l10npath, None)]
+    return reports, dict(obs.summary[locale]), ents, (reftext, l10ntext, lint)
+
+
+SUMMARY_KEYS = ["errors", "warnings", "missing", "missing_w", "report", "obsolete", "changed",
+                "changed_w", "unchanged", "unchanged_w", "keys"]
+
+
+def lint_message(msg):
+    for i, prefix in enumerate(("Duplicate string with ID: ", "Changes to string require a new ID: ")):
+        if msg.startswith(prefix):
+            return [i, canon(msg[len(prefix):])]
+    if msg.startswith("Unparsed content"):
+        return [2]
+    return [3, canon(msg)]
 
 
 def suite_compare(chk, model):
@@ -743,13 +760,19 @@ def suite_compare(chk, model):
     rng = chk.rng
     tmp = tempfile.mkdtemp(prefix="verif_c06_")
     cases, impl, reqs, want_lines = [], [], [], []
+    adapter_cases, adapter_impl, adapter_reqs = [], [], []
     try:
         locs = E2E_LOCALES + (locales_of_table()[::6] if chk.thorough else [])
         for loc in locs:
             toks = e2e_entries(rng, chk.n(36, 150), chk.n(36, 150))
             entries = [(ID_STYLES[i % len(ID_STYLES)] % i, render(r), render(l), pl)
                        for i, (r, l, pl) in enumerate(toks)]
-            reports, stats, (rents, lents) = run_compare_e2e(tmp, loc, entries)
+            reports, stats, (rents, lents), (reftext, l10ntext, lint) = run_compare_e2e(tmp, loc, entries)
+            adapter_cases.append((loc, reftext, l10ntext))
+            adapter_impl.append([0, [stats.get(k, 0) for k in SUMMARY_KEYS]])
+            adapter_impl.append([0, lint])
+            adapter_reqs.append((6, [[loc] if loc is not None else [], reftext, l10ntext]))
+            adapter_reqs.append((7, [["en-US"], reftext, [l10ntext]]))
             if len(rents) != len(entries) or len(lents) != len(entries):
                 raise RuntimeError("harness: generated files did not parse into their entries")
             by_key, stray = {}, []
@@ -805,6 +828,13 @@ def suite_compare(chk, model):
                 mouts.append([[f[0], f[3], line, col0 + f[1]] for f in o[1]])
         chk.correspond("COMPARE-E2E (reports of ContentComparer.compare vs model findings)",
                        cases, impl, mouts)
+        # the checker model behind the interfaces of the end-to-end models of C03 and C19
+        # (Model/CheckPlain.v props_chk / props_lint_chk): whole-pipeline model runs on the TEXTS
+        outs = model.call(adapter_reqs, timeout=900)
+        chk.correspond("E2E-ADAPTERS (compare_properties with props_chk: summary; lint_properties "
+                       "with props_lint_chk: findings; vs ContentComparer / L10nLinter on the files)",
+                       [c for c in adapter_cases for _ in (0, 1)], adapter_impl, outs,
+                       describe=lambda c: {"locale": c[0], "reference_text": c[1], "l10n_text": c[2]})
 
 
 def e2e_single(c):
@@ -813,7 +843,7 @@ def e2e_single(c):
     import tempfile
     tmp = tempfile.mkdtemp(prefix="verif_c06_")
     try:
-        reports, _, _ = run_compare_e2e(tmp, c.get("locale"),
+        reports, _, _, _ = run_compare_e2e(tmp, c.get("locale"),
                                         [(c["key"], c["reference"], c["l10n"], c["plural_comment"])])
     finally:
         shutil.rmtree(tmp, ignore_errors=True)
